@@ -5,6 +5,7 @@ import (
 	"errors"
 	"fmt"
 	"go/ast"
+	"go/token"
 	"os"
 	"path/filepath"
 	"regexp"
@@ -40,11 +41,13 @@ func main() {
 
 // ---------------------------------------------------------------- extract
 
-var keyRe = regexp.MustCompile(`^\{ var key = fmt\.Sprintf\("([^"]*)", areaCode, phone\) `)
+var keyRe = regexp.MustCompile(`^\{ var _v0 = fmt\.Sprintf\("([^"]*)", areaCode, phone\) `)
 
+// keyFmt classifies the key line of the canonical body of SendSMSCode / VerifySMSCode (_v0 is the key variable,
+// assigned exactly once).
 func keyFmt(body string) string {
 	m := keyRe.FindStringSubmatch(body)
-	if m == nil || strings.Count(body, "key =") != 1 || strings.Count(body, "key :=") != 0 {
+	if m == nil || strings.Count(body, "_v0 =") != 1 {
 		return "unknown"
 	}
 	switch m[1] {
@@ -54,6 +57,67 @@ func keyFmt(body string) string {
 		return "plain"
 	}
 	return "unknown"
+}
+
+// canon returns the normalised body of a function with its local variables (var / := / range declarations, not the
+// parameters) renamed to _v0, _v1, … in order of declaration, so that renaming a local does not change a fact.
+// It rewrites the identifiers of that declaration in place: use only canon (not Body) on a function afterwards.
+func canon(f *gofacts.File, fd *ast.FuncDecl) string {
+	if fd == nil || fd.Body == nil {
+		return ""
+	}
+	names := map[string]string{}
+	add := func(e ast.Expr) {
+		if id, ok := e.(*ast.Ident); ok && id.Name != "_" {
+			if _, seen := names[id.Name]; !seen {
+				names[id.Name] = fmt.Sprintf("_v%d", len(names))
+			}
+		}
+	}
+	ast.Inspect(fd.Body, func(n ast.Node) bool {
+		switch x := n.(type) {
+		case *ast.ValueSpec:
+			for _, id := range x.Names {
+				add(id)
+			}
+		case *ast.AssignStmt:
+			if x.Tok == token.DEFINE {
+				for _, l := range x.Lhs {
+					add(l)
+				}
+			}
+		case *ast.RangeStmt:
+			if x.Tok == token.DEFINE {
+				if x.Key != nil {
+					add(x.Key)
+				}
+				if x.Value != nil {
+					add(x.Value)
+				}
+			}
+		}
+		return true
+	})
+	var ren func(n ast.Node)
+	ren = func(n ast.Node) {
+		ast.Inspect(n, func(m ast.Node) bool {
+			switch x := m.(type) {
+			case *ast.SelectorExpr: // never a field / method name
+				ren(x.X)
+				return false
+			case *ast.KeyValueExpr: // never a struct-literal field name
+				ren(x.Value)
+				return false
+			case *ast.Ident:
+				if nn, ok := names[x.Name]; ok {
+					x.Name = nn
+				}
+			}
+			return true
+		})
+	}
+	ren(fd.Body)
+	return f.Src(fd.Body)
 }
 
 // stmts returns the normalised statements of a function body (top level only).
@@ -88,67 +152,67 @@ func extract(repo, leanDir string) {
 	vl := gofacts.MustLoad(repo, "vcode/vlogic.go")
 	cd := gofacts.MustLoad(repo, "vcode/code.go")
 	ut := gofacts.MustLoad(repo, "idgen/random/util.go")
-
-	sendBody := vl.Body("sender", "SendSMSCode")
-	verBody := vl.Body("sender", "VerifySMSCode")
+	// bodies with local variables renamed to _v0, _v1, … (parameters and receivers keep their names)
+	sendBody := canon(vl, vl.Func("sender", "SendSMSCode"))
+	verBody := canon(vl, vl.Func("sender", "VerifySMSCode"))
 	sendFmt, verFmt := keyFmt(sendBody), keyFmt(verBody)
 
-	// genNonceStr: the argument of fn(…)
-	nonce := ut.Body("", "genNonceStr")
+	// genNonceStr: the argument of fn(…); _v0 = builder, _v1 = len(baseStr), _v2 = index, _v3 = loop counter
+	nonce := canon(ut, ut.Func("", "genNonceStr"))
 	bound := "unknown"
-	if m := regexp.MustCompile(`index = fn\(([^()]*)\)`).FindAllStringSubmatch(nonce, -1); len(m) == 1 &&
-		gofacts.Has(nonce, "var bSize = len(baseStr)") && strings.Count(nonce, "bSize") == 2 {
-		switch m[0][1] {
-		case "bSize - 1":
+	const noncePre = "{ var _v0 strings.Builder var _v1 = len(baseStr) var _v2 int for _v3 := 0; _v3 < length; _v3++ { _v2 = fn("
+	const noncePost = ") _v0.WriteByte(baseStr[_v2]) } return _v0.String() }"
+	nonceLoop := strings.HasPrefix(nonce, noncePre) && strings.HasSuffix(nonce, noncePost) && len(nonce) >= len(noncePre)+len(noncePost) &&
+		gofacts.Has(canon(ut, ut.Func("", "SecGenNonceStr")), "var _v4 = rand.New(_v3) return genNonceStr(baseStr, length, _v4.Intn) }")
+	if nonceLoop {
+		switch nonce[len(noncePre) : len(nonce)-len(noncePost)] {
+		case "_v1 - 1":
 			bound = "lenMinus1"
-		case "bSize":
+		case "_v1":
 			bound = "len"
 		}
 	}
-	nonceLoop := gofacts.Has(nonce, "var index int for i := 0; i < length; i++ { index = fn(") &&
-		gofacts.Has(nonce, ") strBuilder.WriteByte(baseStr[index]) } return strBuilder.String() }") &&
-		strings.Count(nonce, "index") == 3 &&
-		gofacts.Has(ut.Body("", "SecGenNonceStr"), "return genNonceStr(baseStr, length, r.Intn)")
 
-	// checkVerify
-	cv := vl.Body("sender", "checkVerify")
+	// checkVerify (_v0 = now)
+	cv := canon(vl, vl.Func("sender", "checkVerify"))
 	const retryIf = "if c.verifyCount > s.MaxVerifyCount { return ErrVerifyCodeRetryLimit }"
 	const codeIf = "if c.code != code { return ErrVerifyCodeNotMatch }"
 	const hashIf = "if c.hash != hash { return ErrVerifyCodeHashNotMatch }"
-	const ttlIf = "var now = time.Now() if now.Sub(c.setTime) > s.TTL.Duration() { return ErrVerifyCodeTimeout } return nil }"
+	const ttlIf = "var _v0 = time.Now() if _v0.Sub(c.setTime) > s.TTL.Duration() { return ErrVerifyCodeTimeout } return nil }"
 	countsFirst := strings.HasPrefix(cv, "{ c.updateVerify() "+retryIf) &&
 		cd.Body("vCache", "updateVerify") == "{ c.verifyCount++ }" && strings.Count(cv, "verifyCount") == 1 &&
 		strings.Count(cv, "updateVerify") == 1
 	verifyOrder := gofacts.Before(cv, retryIf, codeIf) && gofacts.Before(cv, codeIf, hashIf) && gofacts.Before(cv, hashIf, ttlIf) &&
-		strings.HasSuffix(cv, gofacts.Norm(ttlIf)) && strings.Count(cv, "return") == 5
+		strings.HasSuffix(cv, ttlIf) && strings.Count(cv, "return") == 5
 
 	// updateSend: the five assignments in any order
 	updateSend := sameSet(stmts(cd, cd.Func("vCache", "updateSend")),
 		"c.code = code", "c.hash = random.MD5UUID()", "c.setTime = now", "c.sendCount++", "c.verifyCount = 0") &&
 		gofacts.Has(cd.Body("", "newSenderCache"), "return &vCache{counterTime: now}")
 
-	// checkSend
+	// checkSend (no locals)
 	cs := vl.Body("sender", "checkSend")
 	checkSend := cs == gofacts.Norm("{ if now.Sub(c.setTime) < s.MinInterval.Duration() { return ErrSendTooFreq } "+
 		"if now.Sub(c.counterTime) > s.CounterDuration.Duration() { c.refresh(now) return nil } "+
 		"if c.sendCount > s.MaxCount { return ErrSendCountLimit } return nil }") &&
 		sameSet(stmts(cd, cd.Func("vCache", "refresh")), "c.counterTime = now", "c.sendCount = 0")
 
-	// SendSMSCode / VerifySMSCode flow (after the key line)
-	sendFlow := gofacts.Has(sendBody, "var now = time.Now() var c = s.fetchCache(key, true) if c == nil { c = newSenderCache(now) } "+
-		"var err = s.checkSend(c, now) if err != nil { return \"\", err } var code = s.genCode(phone) c.updateSend(code, now) "+
-		"s.cacheM.Set(key, c) if !s.Mock { err = s.sms.SendCode(areaCode, phone, code) } return c.hash, err }")
-	verifyFlow := gofacts.Has(verBody, "var c = s.fetchCache(key, false) if c == nil { return ErrVerifyCodeNotExist } return s.checkVerify(c, code, hash) }")
+	// SendSMSCode / VerifySMSCode flow after the key line (_v0 key, _v1 now, _v2 entry, _v3 err, _v4 code)
+	sendFlow := strings.HasSuffix(sendBody, ", areaCode, phone) var _v1 = time.Now() var _v2 = s.fetchCache(_v0, true) if _v2 == nil { _v2 = newSenderCache(_v1) } "+
+		"var _v3 = s.checkSend(_v2, _v1) if _v3 != nil { return \"\", _v3 } var _v4 = s.genCode(phone) _v2.updateSend(_v4, _v1) "+
+		"s.cacheM.Set(_v0, _v2) if !s.Mock { _v3 = s.sms.SendCode(areaCode, phone, _v4) } return _v2.hash, _v3 }") && strings.Count(sendBody, "areaCode, phone") == 2
+	verifyFlow := strings.HasSuffix(verBody, ", areaCode, phone) var _v1 = s.fetchCache(_v0, false) if _v1 == nil { return ErrVerifyCodeNotExist } return s.checkVerify(_v1, code, hash) }") &&
+		strings.Count(verBody, "areaCode, phone") == 1
 
-	gc := vl.Body("sender", "genCode")
-	genCode := gc == gofacts.Norm("{ if !s.Mock { return random.SecGenNonceStr(numChars, s.CodeLen) } var l = len(phone) "+
-		"if l >= s.CodeLen { return phone[l-s.CodeLen:] } var dist = phone for i := 0; i < s.CodeLen-l; i++ { dist = fmt.Sprintf(\"0%s\", dist) } return dist }") &&
+	// genCode (_v0 = len(phone), _v1 = padded code, _v2 = loop counter)
+	genCode := canon(vl, vl.Func("sender", "genCode")) == "{ if !s.Mock { return random.SecGenNonceStr(numChars, s.CodeLen) } var _v0 = len(phone) "+
+		"if _v0 >= s.CodeLen { return phone[_v0-s.CodeLen:] } var _v1 = phone for _v2 := 0; _v2 < s.CodeLen-_v0; _v2++ { _v1 = fmt.Sprintf(\"0%s\", _v1) } return _v1 }" &&
 		regexp.MustCompile(`numChars\s*=\s*"0123456789"`).MatchString(vl.Src(vl.AST))
 
-	fc := vl.Body("sender", "fetchCache")
+	// the logic's own cache; fetchCache (_v0 = fn, _v1 = item, _v2 = ok)
 	ownCache := gofacts.Has(vl.Body("", "NewSimpleLogic"), "cacheM: NewSimpleCache(config.CacheSize)") &&
-		gofacts.Has(fc, "var fn = s.cacheM.Get if peek { fn = s.cacheM.Peek } var item, ok = fn(key) if !ok { return nil }") &&
-		gofacts.Has(vl.Body("simpleCache", "Set"), "var v, ok = value.(cache.Value) if ok { s.lru.Set(key, v) }") &&
+		strings.HasPrefix(canon(vl, vl.Func("sender", "fetchCache")), "{ var _v0 = s.cacheM.Get if peek { _v0 = s.cacheM.Peek } var _v1, _v2 = _v0(key) if !_v2 { return nil } ") &&
+		canon(vl, vl.Func("simpleCache", "Set")) == "{ var _v0, _v1 = value.(cache.Value) if _v1 { s.lru.Set(key, _v0) } }" &&
 		gofacts.Has(vl.Body("simpleCache", "Get"), "return s.lru.Get(key)") && gofacts.Has(vl.Body("simpleCache", "Peek"), "return s.lru.Peek(key)")
 
 	b := gofacts.LeanBool
@@ -190,10 +254,10 @@ func (f *fakeSMS) SendCode(areaCode, phone, code string) error {
 }
 
 type params struct {
-	mock                          bool
-	codeLen                       int
-	maxc, maxv                    int
-	ttlx, minb, winr, smsfail     bool
+	mock                      bool
+	codeLen                   int
+	maxc, maxv                int
+	ttlx, minb, winr, smsfail bool
 }
 
 type pairState struct {
@@ -734,7 +798,7 @@ func newLine(p params) string {
 }
 
 func genParams(r *rng.R) params {
-	return params{mock: r.Bool(), codeLen: r.PickInt(0, 1, 4, 6, 25), maxc: r.Range(-1, 3), maxv: r.Range(-1, 3),
+	return params{mock: r.Bool(), codeLen: r.PickInt(0, 1, 4, 6, 25), maxc: r.PickInt(-1, 0, 1, 2, 3, 3), maxv: r.PickInt(-1, 0, 1, 2, 3, 3, 5),
 		ttlx: r.Chance(1, 6), minb: r.Chance(1, 5), winr: r.Chance(1, 3), smsfail: r.Chance(1, 6)}
 }
 
@@ -831,7 +895,7 @@ func genHistory(r *rng.R, search bool) corr.Case {
 	}
 	for i := 0; i < n; i++ {
 		p := g.anyPair()
-		if r.Chance(1, 3) {
+		if r.Chance(1, 3) || i == 0 {
 			lines = append(lines, g.sendLine(p))
 			if r.Chance(1, 2) { // verify right after a (re-)send
 				lines = append(lines, g.verifyLine(p, "cur", "hcur"))
